@@ -279,6 +279,11 @@ pub fn valloc_capacity_avail(c: usize, Ghost(avail): Ghost<nat>) -> (r: Vec<u8>)
     requires c <= avail + ALLOC_SLACK, c <= isize::MAX as usize,
     ensures r@.len() == 0,
 { Vec::with_capacity(c) }
+/// `a.max(b)` on usize (Ord::max is generic)
+#[verifier::external_body]
+pub fn vmax_of_usize(a: usize, b: usize) -> (r: usize)
+    ensures r == (if a >= b { a } else { b }),
+{ core::cmp::max(a, b) }
 /// `a.min(b)` on usize (Ord::min is generic)
 #[verifier::external_body]
 pub fn vmin_of_usize(a: usize, b: usize) -> (r: usize)
